@@ -21,6 +21,8 @@ import (
 
 var errC10False = errors.New("returned false")
 
+var c10Msg = []byte("verif C10 message")
+
 func c10Bool(ok bool) error {
 	if ok {
 		return nil
@@ -83,5 +85,6 @@ func TestC10Worker(t *testing.T) {
 }
 
 func c10Run(t *testing.T, unit string) {
+	t.Parallel() // units overlap: each has its own worker pool, the tail of one unit is filled by the others
 	kit.RunUnit(t, unit, "TestC10Worker", c10Units[unit]())
 }
